@@ -5,6 +5,16 @@ import json, subprocess, os
 ROOT = os.path.dirname(os.path.abspath(__file__))
 
 CHECKS = {
+ "C03": dict(
+  technique="complete decision-tree walk of a scope-program generator (small scope) + rapid random programs over deliberately colliding names, oracle = independent scope-chain model; values unique per declaration/assignment so the value read identifies the binding",
+  text="Programs over variables {a,b,c} with declarations, assignments, reads, blocks, if, bounded while, for loops whose variable comes from the colliding pool, function declarations with colliding parameters/locals, calls from scopes holding same-named locals, closures escaping their block. Every program the generator derives for two top-level statements within a construct bound is executed, plus random programs up to 40 constructs; complete stdout, outcome, and for the first redeclaration / undefined read / undefined assign the line and the name in the message are compared with the model. Programs where static and dynamic resolution differ are discarded (counted) as the property prescribes. Exploration.",
+  note="Trusted: the reference scope model (block, for-header, activation, closure chain, program scope, globals).",
+  ref="4 C03"),
+ "C06": dict(
+  technique="exhaustive fault-kind x syntactic-position product + rapid control skeletons with one planted fault, oracle = reference evaluator (expected stdout prefix, kind class, line) checked in batch mode with a deterministic step budget and through the real CLI (exit status 70, stderr, termination)",
+  text="35 faulting expressions of 9 kinds (undefined name, type mismatch, zero divisor, bad index read/write, missing property / non-object, non-callable, arity, failing built-in) x 45 syntactic positions (top level, nested block, if/else arms, if/while/for conditions, for initialiser/increment, bodies of while(true) and for(;;), function bodies, nested calls, arguments, array/object elements, operands, right side of logical operators, index, callee, return value) plus redeclaration and stray break/continue/return in 4 positions, each in a multi-line program that prints before and after and then calls ইনপুট(\"PROMPT\") and loops; fault-free variants; random skeletons with a fault planted at a random trace point. stdout must be exactly the output up to the fault (no prompt), the first diagnostic must be of the right kind class and name the fault's line, the run must end within 50N+1e5 evaluation steps (N = model steps) and the CLI must exit 70 (0 with empty stderr when fault-free). Exploration.",
+  note="Trusted: reference evaluator; kind classes are lenient patterns (DESIGN.md section 3), wording is not compared. CLI is run for a sample in quick, for every case in thorough.",
+  ref="4 C06"),
  "C04": dict(
   technique="exhaustive callee x argument-count matrix and return-skeleton decision-tree walk + rapid return skeletons and closure call histories, oracle = independent reference evaluator (activations, closures by reference), compared after every step",
   text="Every callee form (functions of 0-3 parameters, built-ins, every non-callable kind, calls through variables/arrays/properties) x 0-4 arguments; recursion templates (direct, mutual, self-application, through loops) to depth 200; every function body the skeleton generator derives (returns at every nesting depth of block/if/else/while/for with code after them) within a construct bound, plus random larger ones; random histories that create 1-3 instances of a counter factory and interleave calls on sibling closures reached through variables, arrays, properties and fresh calls. The complete stdout, outcome and diagnostic line are compared with the reference evaluator. Exploration.",
